@@ -190,6 +190,68 @@ def r18_3(rep: Report) -> None:
         rep.ok(rid, V, 'no while loops')
 
 
+def r18_4(rep: Report) -> None:
+    """an expectation that may be absent is a number or None; 0 is a value (first segment of a VOD
+    stream: decode time 0, startNumber 0).  A detecting check guarded by the truthiness of such an
+    expectation is skipped for 0 - the corruption of exactly that segment goes unreported."""
+    rid = 'R18.4'
+    for rel in rep.repo.py_files(V):
+        tree = rep.repo.tree(rel)
+        for cls in [n for n in ast.walk(tree) if isinstance(n, ast.ClassDef)]:
+            opt: dict[str, str] = {}
+            for b in cls.body:
+                if isinstance(b, ast.AnnAssign) and isinstance(b.target, ast.Name):
+                    a = norm(b.annotation)
+                    if 'None' in a and any(k in a for k in ('int', 'float', 'timedelta', 'Decimal')):
+                        opt[b.target.id] = a
+            if not opt:
+                continue
+            for call in [n for n in ast.walk(cls) if isinstance(n, ast.Call)
+                         and isinstance(n.func, ast.Attribute)
+                         and (n.func.attr.startswith('check_') or n.func.attr == 'add_error')]:
+                fn = enclosing_function(call)
+                child = call
+                for a in _ancestors(call):
+                    if isinstance(a, ast.If) and any(child is x or _contains(x, child) for x in a.body):
+                        conj = a.test.values if isinstance(a.test, ast.BoolOp) and isinstance(a.test.op, ast.And) \
+                            else [a.test]
+                        for t in conj:
+                            attr = None
+                            truthy = False
+                            if isinstance(t, ast.Attribute) and norm(t.value) == 'self':
+                                attr, truthy = t.attr, True
+                            elif isinstance(t, ast.Compare) and isinstance(t.ops[0], ast.IsNot) \
+                                    and isinstance(t.left, ast.Attribute) and norm(t.left.value) == 'self' \
+                                    and isinstance(t.comparators[0], ast.Constant) \
+                                    and t.comparators[0].value is None:
+                                attr = t.left.attr
+                            if attr not in opt:
+                                continue
+                            construct = f'{rel}::{cls.name}.{fn.name if fn else "?"}'
+                            key = f'{call.func.attr} under self.{attr}'
+                            if truthy:
+                                rep.fail(rid, construct, key,
+                                         f'`{short(call, 60)}` runs only when `self.{attr}` ({opt[attr]}) is '
+                                         'truthy: an expectation of 0 (first segment, decode time 0) is '
+                                         'treated as "no expectation" and the check is skipped', a, file=rel)
+                            else:
+                                rep.ok(rid, construct, key, f'guard `self.{attr} is not None`')
+                    if isinstance(a, (ast.FunctionDef, ast.AsyncFunctionDef)):
+                        break
+                    child = a
+
+
+def _ancestors(n: ast.AST):
+    p = getattr(n, '_parent', None)
+    while p is not None:
+        yield p
+        p = getattr(p, '_parent', None)
+
+
+def _contains(root: ast.AST, node: ast.AST) -> bool:
+    return any(x is node for x in ast.walk(root))
+
+
 def analyse(rep: Report) -> None:
     rep.explanation = (
         'Detection side of C18 as an inventory: for each corruption kind of the property the '
@@ -200,5 +262,7 @@ def analyse(rep: Report) -> None:
     rep.rule('R18.1', 'a check reads the facts needed to detect each corruption kind', floor=20)
     rep.rule('R18.2', 'the detecting check is attached to the element that owns the fact', floor=6)
     rep.rule('R18.3', 'validator while-loops make progress', floor=1)
+    rep.rule('R18.4', 'checks on optional numeric expectations are guarded by `is not None`', floor=3)
     r18_1_2(rep)
     r18_3(rep)
+    r18_4(rep)
